@@ -48,6 +48,11 @@ Mutations caught (each in a private copy, VF_REPO=/tmp/wt-dml):
   5. engine/default.py: python callable default memoised per statement (evaluated
      once per statement instead of once per row)
   6. orm/persistence.py _collect_insert_commands: ``and not render_nulls`` dropped
+  7. sql/crud.py _scan_cols (ordered values): ``c.key not in ordered_keys`` ->
+     ``c not in ordered_keys`` - every column scanned a second time: a supplied
+     column with a SQL-expression onupdate is silently overridden (stored-value),
+     with a python-side onupdate a CompileError; caught only by the
+     Update.ordered_values() / Query.update(preserve_parameter_order) routes
 """
 from __future__ import annotations
 
@@ -85,8 +90,9 @@ META = dict(
     design_ref="DESIGN.md §5 C13",
     level_text="Every default-kind assignment within 2 (quick) / 4 = all 6^4 (thorough) deviations of all-scalar is combined with "
     "every supplied-column subset (all 2^4, per row; all ordered pairs for two-row executions), None in every supplied position, "
-    "INSERT and UPDATE, Core single / values() / executemany / multi-values / return_defaults and ORM flush / bulk INSERT / bulk "
-    "UPDATE, three primary-key modes; stored rows, invocation counts, inserted_primary_key, returned_defaults and ORM attributes are "
+    "INSERT and UPDATE, Core single / values() / executemany / multi-values / return_defaults / Update.ordered_values() (every "
+    "ordering of every supplied subset of <=3 columns) and ORM flush / bulk INSERT / bulk UPDATE / Query.update(preserve_parameter_order), "
+    "three primary-key modes; stored rows, invocation counts, inserted_primary_key, returned_defaults and ORM attributes are "
     "compared with the value-per-row model. Complete for the bound.",
     level_note="Trusted: the 30-line model, SQLite storing integers faithfully. Only SQLite executes (per backend: the default "
     "machinery is dialect independent except RETURNING vs lastrowid, both reached here through return_defaults / plain).",
@@ -467,6 +473,18 @@ def _run_update(world, conn, t, cls, route, rows, sups):
             result = conn.execute(stmt.values(**sups[0]) if sups[0] else stmt, {"b_id": 1})
         elif route == "u_single_rd":
             result = conn.execute(stmt.return_defaults(), dict(sups[0], b_id=1))
+        elif route in ("u_ordered", "u_ordered_cols"):
+            # Update.ordered_values(): SET clause in the given order; keys spelled as strings / as Column objects
+            order = rows[0]["order"]
+            pairs = [((t.c[c] if route == "u_ordered_cols" else c), sups[0][c]) for c in order]
+            result = conn.execute(stmt.ordered_values(*pairs), {"b_id": 1})
+        elif route == "ou_query_ordered":
+            order = rows[0]["order"]
+            with Session(bind=conn) as s_:
+                pairs = [(getattr(cls, c), sups[0][c]) for c in order]
+                s_.query(cls).filter(cls.id == bindparam("b_id")).params(b_id=1).update(
+                    pairs, synchronize_session=False, update_args={"preserve_parameter_order": True})
+                s_.flush()
         elif route == "u_many":
             first = set(sups[0])
             if any(first - set(s) for s in sups[1:]):
@@ -562,6 +580,18 @@ def single_specs(orm_null=False):
                 yield dict(s=list(s), null=[c])
 
 
+def ordered_specs():
+    """one row for Update.ordered_values(): every ordering of every supplied subset of <= 3 columns, plain and with
+    None in each supplied position"""
+    for s in SUBSETS:
+        if not 1 <= len(s) <= 3:
+            continue
+        for order in itertools.permutations(s):
+            yield dict(s=list(s), order=list(order))
+            for c in s:
+                yield dict(s=list(s), none=[c], order=list(order))
+
+
 def pair_specs():
     """two rows: every ordered pair of subsets; None alternately in the first supplied position of row 2 / row 1"""
     for s1 in SUBSETS:
@@ -617,6 +647,11 @@ def cases_for(kinds):
         if not rows[0]["s"] and not has_py_or_sql_onupdate:
             continue
         yield dict(kinds=kinds, pk="given", route="u_many", rows=rows)
+    for route in ("u_ordered", "u_ordered_cols", "ou_query_ordered"):
+        for spec in ordered_specs():
+            if route == "u_ordered_cols" and len(spec["s"]) == 1:
+                continue  # one column: the order is trivial, string keys cover it
+            yield dict(kinds=kinds, pk="given", route=route, rows=[spec])
     for spec in single_specs():
         yield dict(kinds=kinds, pk="given", route="ou_flush", rows=[spec])
     for route in ("ou_flush", "ou_bulk"):
@@ -645,7 +680,7 @@ def shards(tier, seed):
 
 
 def _sig(kind, case):
-    rows = ";".join("%s%s%s" % ("+".join(r["s"]) or "-", ("/None:" + "+".join(r["none"])) if r.get("none") else "", ("/null:" + "+".join(r["null"])) if r.get("null") else "") for r in case["rows"])
+    rows = ";".join("%s%s%s" % ("+".join(r["s"]) or "-", ("/None:" + "+".join(r["none"])) if r.get("none") else "", ("/null:" + "+".join(r["null"])) if r.get("null") else "") + (("/order:" + ">".join(r["order"])) if r.get("order") else "") for r in case["rows"])
     return "%s: kinds=%s pk=%s route=%s rows=[%s]" % (kind, ",".join(case["kinds"]), case.get("pk", "given"), case["route"], rows)
 
 
@@ -676,6 +711,8 @@ def _permute(case, perm):
         for k in ("none", "null"):
             if r.get(k):
                 rr[k] = mv(r[k])
+        if r.get("order"):
+            rr["order"] = [inv[c] for c in r["order"]]
         rows.append(rr)
     return dict(case, kinds=[case["kinds"][old] for old in perm], rows=rows)
 
@@ -717,6 +754,10 @@ def _minimal_kinds(case, kind):
                 for key in ("none", "null"):
                     if r.get(key) and [x for x in r[key] if x != c]:
                         rr[key] = [x for x in r[key] if x != c]
+                if r.get("order"):
+                    rr["order"] = [x for x in r["order"] if x != c]
+                    if not rr["order"]:
+                        continue
                 if attempt(dict(cur, rows=cur["rows"][:ri] + [rr] + cur["rows"][ri + 1:])):
                     changed = True
                     r = cur["rows"][ri]
